@@ -34,7 +34,13 @@ FUNCTIONS = [(EM, "get_emodulus"), (EM, "normalize"),
              (EM + ".pxcorr", "get_pixelation_delta"),
              (EM + ".pxcorr", "corr_deform_with_area_um"),
              (EM + ".pxcorr", "corr_deform_with_volume"),
-             (EM + ".load", "load_lut")]
+             (EM + ".load", "load_lut"),
+             (EM + ".viscosity", "get_viscosity"),
+             (EM + ".viscosity", "get_viscosity_mc_pbs_buyukurganci_2022"),
+             (EM + ".viscosity", "get_viscosity_mc_pbs_herold_2017"),
+             (EM + ".viscosity", "get_viscosity_water_kestin_1978"),
+             (EM + ".viscosity", "check_temperature"),
+             (EM + ".viscosity", "shear_rate_square_channel")]
 BOUNDS = {
     "quick": {"LUT": "3 rows of arbitrary positive reals + arbitrary positive "
               "metadata (channel width, flow rate, viscosity)",
@@ -46,7 +52,8 @@ BOUNDS = {
 OUTSIDE = ["the interpolation inside scipy.interpolate.griddata (Qhull, C): "
            "'NaN exactly outside the support' and values at LUT nodes",
            "the content of the three built-in LUT files",
-           "the viscosity models' formulas", "floating-point rounding",
+           "the VALUES of the viscosity models' formulas (their effect on "
+           "the argument arrays is checked)", "floating-point rounding",
            "extrapolate=True", "LUTs given by path/identifier (file I/O)"]
 STUBS = ["scipy.interpolate.griddata(points, values, xi, method='linear'): "
          "uninterpreted, positively homogeneous in `values`",
